@@ -79,6 +79,20 @@ CHECKS["C12"] = {
     ],
 }
 
+CHECKS["C13"] = {
+    "pkg": "c13",
+    "level": "exploration",
+    "technique": "property-based testing with a harness-owned response order (scripted PD, rapid-drawn release permutation) + history invariants over the issuance log; goroutine stress for the CAS loop; scripted-oracle commit-wait cases",
+    "level_text": "The PD stub assigns timestamps at request arrival and the harness releases responses in a drawn order while 1-6 callers run drawn scripts, so response reordering - the dimension the property quantifies over - is owned, not hoped for. Invariants O1-O4 are evaluated on the recorded history; IsExpired/UntilExpired are probed around the cached ts at every step. The local/mock oracles and the commit-wait loop get dedicated generators. Interleavings inside the CAS loop are reached by free-running stress only (under -race in the thorough tier).",
+    "level_note": "Trusted: 8 ms quiescence waits only shape the schedule (they never decide a verdict); real-time order is taken from one atomic event counter read immediately before/after each call.",
+    "tests": [
+        {"name": "TestOwnedSchedule", "quick": 120, "thorough": 1200, "shards": 8},
+        {"name": "TestStress", "quick": 1, "thorough": 1, "shards": 4, "race": True},
+        {"name": "TestLocalAndMock", "quick": 1, "thorough": 1, "shards": 2, "race": True},
+        {"name": "TestCommitWait", "quick": 3000, "thorough": 30000, "shards": 2},
+    ],
+}
+
 # properties without a registered check, with the reason (kept current by hand)
 NOT_CLAIMED = {}
 
